@@ -1,8 +1,287 @@
-import Isotp.Process
+import Isotp.Proofs.Tx
 /-
-  C02 — property theorems (see DESIGN.md §6). Helper lemmas live in Isotp/Proofs.
+  C02 — "Emitted frames are exactly the ISO-15765-2 segmentation of the payload."
+  Property theorems (see DESIGN.md §6). Helper lemmas live in Isotp/Proofs/Pad.lean and Isotp/Proofs/Tx.lean.
+
+  Reading guide.
+  * `Spec.segment tc p` (Isotp/Spec/Segment.lean) is the reference segmentation; `segOf s p` is the same thing
+    for the configuration/address of the layer state `s`; `msgFor s r0 p d` is the CAN message that must carry
+    the data field `d` (arbitration id, 11/29-bit flag, FD / BRS flags of the configuration, DLC from the table).
+  * `Fresh r0 p`: `r0` is the `SendRequest` for payload `p` as `send()` builds it (bytes payload, or a generator
+    that does yield at least `size` values; short generators are C17).
+  * `TxInv0 s r0 p k`: `k` frames of `p` have been handed to the CAN layer and the transfer is still going on
+    (queued at the head of the queue / first frame parked by the rate limiter / waiting for FC / sending CFs).
+  * `Pass`, `RunRes`: outcome of one `_process_tx` pass / of an arbitrary run of API calls.
 -/
 namespace Isotp.C02
-open Isotp State
+open Isotp Isotp.Spec Isotp.State Isotp.Proofs
+
+/-! ## A. padding, DLC and message flags -/
+
+/-- The model's padded length is the reference padded length (smallest legal CAN length that is at least the
+    frame and at least the documented floor). -/
+theorem padLen_agrees (c : Cfg) (a : Addr) (hv : c.valid = true) (n : Nat) (hn : n ≤ c.txDl) :
+    padLen c n = some (padTarget (TxCfg.of c a) n) :=
+  padLen_eq c _ (mirrors_of c a) hv n hn
+
+/-- The padding byte is the configured one (0xCC by default). -/
+theorem padByte_agrees (c : Cfg) (a : Addr) : Isotp.padByte c = Spec.padByte (TxCfg.of c a) :=
+  padByte_eq c _ (mirrors_of c a)
+
+/-- Padded frames have a legal CAN / CAN FD length, not above `tx_data_length`, and only append padding. -/
+theorem padFrame_legal (tc : TxCfg) (hv : ValidTx tc) (d : Bytes) (hd : d.length ≤ tc.txDl) :
+    legal (padFrame tc d).length ∧ (padFrame tc d).length ≤ tc.txDl ∧ d <+: padFrame tc d ∧
+    padFrame tc d = d ++ List.replicate ((padFrame tc d).length - d.length) (Spec.padByte tc) := by
+  obtain ⟨h1, h2, h3⟩ := frame_len_ok tc hv d hd
+  refine ⟨h1, h2, h3, ?_⟩
+  rw [length_padFrame]; rfl
+
+/-- The DLC table: 0..8 ↦ itself, 12 ↦ 9, 16 ↦ 10, 20 ↦ 11, 24 ↦ 12, 32 ↦ 13, 48 ↦ 14, 64 ↦ 15. -/
+theorem canDlc_table :
+    (∀ n, n ≤ 8 → canDlc n = n) ∧ canDlc 12 = 9 ∧ canDlc 16 = 10 ∧ canDlc 20 = 11 ∧ canDlc 24 = 12 ∧
+    canDlc 32 = 13 ∧ canDlc 48 = 14 ∧ canDlc 64 = 15 := by
+  refine ⟨?_, by decide, by decide, by decide, by decide, by decide, by decide, by decide⟩
+  intro n hn; simp [canDlc, hn]
+
+/-- `_make_tx_msg` never fails on the frames the FSM builds (2..tx_data_length bytes) and produces: the reference
+    padded data, the DLC of the table, the given arbitration id, and the 11/29-bit, FD and BRS flags of the
+    configuration. -/
+theorem makeTxMsg_frame (c : Cfg) (a : Addr) (hv : c.valid = true) (arbId : Nat) (d : Bytes)
+    (h2 : 2 ≤ d.length) (hd : d.length ≤ c.txDl) :
+    ∃ msg, makeTxMsg c a arbId d = some msg ∧ msg.id = arbId ∧ msg.ext = a.tx.mode.is29 ∧ msg.fd = c.canFd ∧
+      msg.brs = c.brs ∧ msg.data = padFrame (TxCfg.of c a) d ∧ msg.dlc = canDlc msg.data.length ∧
+      legal msg.data.length ∧ msg.data.length ≤ c.txDl :=
+  ⟨_, makeTxMsg_eq c a hv arbId d h2 hd, rfl, rfl, rfl, rfl, rfl, rfl,
+    (frame_len_ok _ (valid_of c a hv) d hd).1, (frame_len_ok _ (valid_of c a hv) d hd).2.1⟩
+
+/-- The address prefix of every `Half` is at most one byte. -/
+theorem txPrefix_le_one (h : Half) : h.txPrefix.length ≤ 1 := txPrefix_length_le h
+
+/-- What `Params.validate` + the address classes guarantee makes the reference configuration valid. -/
+theorem txCfg_valid (c : Cfg) (a : Addr) (hv : c.valid = true) : ValidTx (TxCfg.of c a) := valid_of c a hv
+
+/-- The fields of the message built for a frame `d` of request `r0`. -/
+theorem msgFor_fields (s : State) (r0 : Req) (p d : Bytes) :
+    (msgFor s r0 p d).data = d ∧ (msgFor s r0 p d).dlc = canDlc d.length ∧
+    (msgFor s r0 p d).ext = s.addr.tx.mode.is29 ∧ (msgFor s r0 p d).fd = s.cfg.canFd ∧
+    (msgFor s r0 p d).brs = s.cfg.brs ∧
+    (msgFor s r0 p d).id =
+      s.addr.tx.txId (if NeedsFF (TxCfg.of s.cfg s.addr) p.length then .physical else r0.tat) :=
+  ⟨rfl, rfl, rfl, rfl, rfl, rfl⟩
+
+/-! ## B. shape of the reference segmentation -/
+
+/-- (B1) Every frame has a legal CAN / CAN FD length not above `tx_data_length` and starts with the address prefix. -/
+theorem segment_shape_frames (tc : TxCfg) (hv : ValidTx tc) (p d : Bytes) (hd : d ∈ segment tc p) :
+    legal d.length ∧ d.length ≤ tc.txDl ∧ tc.pre <+: d :=
+  segment_frames_legal tc hv p d hd
+
+/-- (B2) One frame exactly when the payload fits a Single Frame (short or escape form). -/
+theorem segment_shape_single (tc : TxCfg) (hv : ValidTx tc) (p : Bytes) :
+    (segment tc p).length = 1 ↔ (sfShort tc p.length ∨ sfEscape tc p.length) :=
+  segment_single_iff tc hv p
+
+/-- The short Single Frame form is used iff the whole frame (with the configured minimum length) is ≤ 8 bytes. -/
+theorem segment_shape_sfShort (tc : TxCfg) (p : Bytes) (h : sfShort tc p.length) :
+    segment tc p = [padFrame tc (tc.pre ++ [UInt8.ofNat p.length] ++ p)] ∧
+    tc.pre.length + 1 + p.length ≤ 8 ∧ floorLen tc ≤ 8 :=
+  ⟨segment_sfShort tc p h, (sfShort_iff tc p.length).mp h⟩
+
+/-- Otherwise the escape form, when it fits `tx_data_length`. -/
+theorem segment_shape_sfEscape (tc : TxCfg) (p : Bytes) (h : sfEscape tc p.length) :
+    segment tc p = [padFrame tc (tc.pre ++ [0x00, UInt8.ofNat p.length] ++ p)] :=
+  segment_sfEscape tc p h
+
+/-- Otherwise frame 0 is a First Frame announcing the true length (12-bit form up to 4095, 32-bit escape form
+    above) and carrying the first `ffRoom` bytes; it is exactly `tx_data_length` long. -/
+theorem segment_shape_ff (tc : TxCfg) (hv : ValidTx tc) (p : Bytes) (h : NeedsFF tc p.length) :
+    (segment tc p)[0]? = some (padFrame tc (tc.pre ++ ffHeader p.length ++ p.take (ffRoom tc p.length))) ∧
+    (tc.pre ++ ffHeader p.length ++ p.take (ffRoom tc p.length)).length = tc.txDl := by
+  refine ⟨segment_ff_zero tc p h, ?_⟩
+  have hlt := ffRoom_lt tc p.length h hv
+  have hdl := txDl_fix tc hv
+  have hpre := hv.pre
+  simp only [List.length_append, List.length_take]
+  rw [Nat.min_eq_left (by omega)]
+  unfold ffHeader ffRoom be32
+  split <;> simp <;> omega
+
+/-- (B4) Frame `k ≥ 1` is the Consecutive Frame numbered `k mod 16` (1,2,…,15,0,1,…) carrying the next `cfRoom`
+    bytes after the `carried k` bytes of the previous frames; there is no such frame once everything is carried. -/
+theorem segment_shape_cf (tc : TxCfg) (hv : ValidTx tc) (p : Bytes) (h : NeedsFF tc p.length) (k : Nat) (hk : 1 ≤ k) :
+    (segment tc p)[k]? =
+      if carried tc p.length k < p.length then
+        some (padFrame tc (tc.pre ++ [UInt8.ofNat (0x20 + k % 16)] ++ (p.drop (carried tc p.length k)).take (cfRoom tc)))
+      else none :=
+  segment_ff_succ tc hv p h k hk
+
+/-- (B3) The First Frame part and the Consecutive Frame pieces, put back together, are the payload; every piece
+    has 1..cfRoom bytes and only the last one can be short. -/
+theorem segment_shape_payload (tc : TxCfg) (hv : ValidTx tc) (p : Bytes) :
+    p.take (ffRoom tc p.length) ++ (chunks (cfRoom tc) (p.drop (ffRoom tc p.length))).flatten = p ∧
+    ∀ i c, (chunks (cfRoom tc) (p.drop (ffRoom tc p.length)))[i]? = some c →
+      1 ≤ c.length ∧ c.length ≤ cfRoom tc ∧
+      ((chunks (cfRoom tc) (p.drop (ffRoom tc p.length)))[i + 1]? ≠ none → c.length = cfRoom tc) :=
+  ⟨segment_payload tc hv p, fun i c h => chunks_piece _ (cfRoom_pos tc hv) _ i c h⟩
+
+/-! ## concrete instance used by the non-vacuity examples: classic CAN, normal 11-bit addressing, 20-byte payload -/
+
+def exCfg : Cfg := {}
+def exHalf : Half := { mode := .n11, txid := some 0x123, rxid := some 0x456, ta := none, sa := none, ae := none,
+                       physId := 0, funcId := 0, rxOnly := false, txOnly := false }
+def exAddr : Addr := { tx := exHalf, rx := exHalf }
+def exPayload : Bytes := (List.range 20).map UInt8.ofNat
+def exReq : Req := { id := 7, size := 20, src := exPayload }
+/-- an idle layer with the request queued -/
+def exState : State := { State.init exCfg exAddr with txQueue := [exReq] }
+/-- a ContinueToSend Flow Control (BS = 0, STmin = 0) from the peer -/
+def exFc : CanMsg := { id := 0x456, ext := false, data := [0x30, 0x00, 0x00] }
+/-- CAN FD, 64-byte frames, extended addressing, padding -/
+def exCfgFd : Cfg := { txDl := 64, canFd := true, txPadding := some 0xAA, rlBitMax := 20000000 }
+
+example : exCfg.valid = true := by decide
+example : exCfgFd.valid = true := by decide
+example : ValidTx (TxCfg.of exCfg exAddr) := valid_of _ _ (by decide)
+example : segment (TxCfg.of exCfg exAddr) exPayload =
+    [[0x10, 20, 0, 1, 2, 3, 4, 5], [0x21, 6, 7, 8, 9, 10, 11, 12], [0x22, 13, 14, 15, 16, 17, 18, 19]] := by decide
+example : NeedsFF (TxCfg.of exCfg exAddr) exPayload.length := by decide
+example : sfShort (TxCfg.of exCfg exAddr) 7 := by decide
+example : sfEscape (TxCfg.of exCfgFd exAddr) 30 := by decide
+example : segment (TxCfg.of exCfgFd exAddr) [1, 2, 3] = [[0x03, 1, 2, 3]] := by decide
+example : segment (TxCfg.of { exCfg with txPadding := some 0xAA } exAddr) [1, 2, 3] =
+    [[0x03, 1, 2, 3, 0xAA, 0xAA, 0xAA, 0xAA]] := by decide
+example : (segment (TxCfg.of exCfgFd exAddr) (List.replicate 11 7)) =
+    [[0x00, 11] ++ List.replicate 11 7 ++ [0xAA, 0xAA, 0xAA]] := by decide
+example : makeTxMsg exCfg exAddr 0x123 [0x02, 0xAA, 0xBB] =
+    some { id := 0x123, ext := false, data := [0x02, 0xAA, 0xBB], dlc := 3 } := by decide
+example : makeTxMsg exCfgFd exAddr 0x123 ([0x00, 11] ++ List.replicate 11 7) =
+    some { id := 0x123, ext := false, data := [0x00, 11] ++ List.replicate 11 7 ++ [0xAA, 0xAA, 0xAA], dlc := 10,
+           fd := true } := by decide
+example : Fresh exReq exPayload := ⟨⟨rfl, by decide, by decide, rfl⟩, rfl⟩
+example : TxQueued exState exReq := ⟨rfl, rfl, [], rfl⟩
+
+/-! ## C. the transmit FSM emits the reference segmentation -/
+
+/-- (C1) `startTx` on a fresh request: frame 0 of the reference segmentation is built with the right id / flags /
+    DLC. It is emitted (`out = some …`) or parked in `standby` by the rate limiter (`TxInv … 0`); a Single Frame
+    completes the request at once (`Finished`: FSM idle, `complete(True)` logged), a First Frame leaves the FSM
+    waiting for the Flow Control with 1 frame out (`TxInv … 1`). -/
+theorem startTx_segment (s : State) (r0 : Req) (allowed : Nat) (p : Bytes) (hv : s.cfg.valid = true)
+    (hfr : Fresh r0 p) (h1 : 1 ≤ p.length) (hn : p.length < 4294967296) :
+    Advance s (s.startTx r0 allowed).1 (s.startTx r0 allowed).2 r0 p 0 :=
+  startTx_adv s r0 allowed p hv hfr h1 hn
+
+example : Advance exState (exState.startTx exReq 1000).1 (exState.startTx exReq 1000).2 exReq exPayload 0 :=
+  startTx_segment _ _ _ _ (by decide) ⟨⟨rfl, by decide, by decide, rfl⟩, rfl⟩ (by decide) (by decide)
+
+/-- (C2) `transmitCf` with `k ≥ 1` frames out: it emits nothing and changes nothing about the progress, or emits
+    exactly frame `k`; then either more frames remain (`TxInv … (k+1)`, still sending or waiting for the next FC) or
+    `k` was the last frame and the request completed with `complete(True)`, FSM idle. -/
+theorem transmitCf_segment (s : State) (allowed : Nat) (r0 : Req) (p : Bytes) (k : Nat)
+    (hv : s.cfg.valid = true) (hfr : Fresh r0 p) (hi : TxProg s r0 p k) (hst : s.txState = .transmitCf) :
+    Advance s (s.transmitCf allowed).1 (s.transmitCf allowed).2.1 r0 p k :=
+  txFsm_prog_cf s allowed r0 p k hv hfr hi hst
+
+/-- (C3) One data pass of `_process_tx` from the moment the request is at the head of the queue: nothing emitted and
+    the progress unchanged; or exactly frame `k` emitted and the progress advanced; or frame `k` was the last and the
+    request completed; or the transfer failed (Overflow FC, N_Bs timeout, too many Wait frames): then
+    `complete(False)` is logged and the FSM left the transfer. No Python exception is raised in the first three. -/
+theorem processTx_segment (s : State) (r0 : Req) (p : Bytes) (k : Nat)
+    (hv : s.cfg.valid = true) (hfr : Fresh r0 p) (h1 : 1 ≤ p.length) (hn : p.length < 4294967296)
+    (hexc : s.exc = none) (hfc : FcOk s) (hd : fcPass s = false) (hi : TxInv0 s r0 p k) :
+    Pass s s.processTx.1 s.processTx.2.1 r0 p k :=
+  processTx_pass s r0 p k hv hfr h1 hn hexc hfc hd hi
+
+example : Pass exState exState.processTx.1 exState.processTx.2.1 exReq exPayload 0 :=
+  processTx_segment _ _ _ _ (by decide) ⟨⟨rfl, by decide, by decide, rfl⟩, rfl⟩ (by decide) (by decide) rfl
+    (by intro h; cases h) rfl (Or.inl ⟨rfl, rfl, rfl, [], rfl⟩)
+
+/-- (C3) A pass that sends the Flow Control requested by the receive side emits that FC frame and does not touch the
+    transfer. -/
+theorem processTx_fc_pass (s : State) (r0 : Req) (p : Bytes) (k : Nat) (hv : s.cfg.valid = true) (hfc : FcOk s)
+    (hd : fcPass s = true) (hi : TxInv0 s r0 p k) :
+    ∃ st, s.pendingFcStatus = some st ∧ s.processTx.2.1 = some (fcMsg s st) ∧ TxInv0 s.processTx.1 r0 p k ∧
+      Quiet s s.processTx.1 := by
+  obtain ⟨st, hst, he⟩ := processTx_fc s hv hfc hd
+  rw [he]
+  exact ⟨st, hst, rfl, afterFcReq_inv0 s st r0 p k hi, afterFcReq_quiet s st⟩
+
+/-- (C4) `_process_rx`, `_check_timeouts_rx`, `send`, `recv`, the passing of time and bus input do not touch the
+    transfer in progress. -/
+theorem ops_preserve (s : State) (o : Op) (r0 : Req) (p : Bytes) (k : Nat) (hi : TxInv0 s r0 p k) :
+    TxInv0 (o.apply s) r0 p k ∧ (o.apply s).exc = s.exc ∧ (o.apply s).cfg = s.cfg ∧ (o.apply s).addr = s.addr :=
+  ⟨Op.inv0 s o r0 p k hi, Op.exc s o, (Op.same s o).cfg, (Op.same s o).addr⟩
+
+/-- (C3, end to end) From the moment the request for `p` is at the head of the queue of a layer that has not raised,
+    for every sequence of API calls: the data frames handed to the CAN layer are exactly the next frames of the
+    reference segmentation of `p`, in order, with the id / flags / DLC of part A — a strict prefix while the transfer
+    is in flight, all of them when `complete(True)` is logged; otherwise the transfer failed at some pass. -/
+theorem frames_are_segmentation (s0 : State) (r0 : Req) (p : Bytes) (hv : s0.cfg.valid = true) (hfr : Fresh r0 p)
+    (h1 : 1 ≤ p.length) (hn : p.length < 4294967296) (steps : List Step) (s : State) (k : Nat)
+    (hl : Live s0 s) (hi : TxInv0 s r0 p k) :
+    RunRes s0 r0 p k steps s :=
+  run_segment s0 r0 p hv hfr h1 hn steps s k hl hi
+
+/-- the example transfer, end to end: FF, (FC from the peer), CF 1, CF 2 -/
+example : (run [.tx, .op (.rx exFc), .tx, .tx] exState).2.map (·.data) = segment (TxCfg.of exCfg exAddr) exPayload := by
+  decide
+example : Ev.done 7 true ∈ (run [.tx, .op (.rx exFc), .tx, .tx] exState).1.log := by decide
+example : Live exState exState := ⟨rfl, rfl, rfl, by intro h; cases h⟩
+example : RunRes exState exReq exPayload 0 [.tx, .op (.rx exFc), .tx, .tx] exState :=
+  frames_are_segmentation _ _ _ (by decide) ⟨⟨rfl, by decide, by decide, rfl⟩, rfl⟩ (by decide) (by decide) _ _ _
+    ⟨rfl, rfl, rfl, by intro h; cases h⟩ (Or.inl ⟨rfl, rfl, rfl, [], rfl⟩)
+
+/-! ## D. `send()` refuses what cannot be announced -/
+
+/-- A declared size of 2^32 or more (or a negative one) is refused with `ValueError`; nothing is queued. -/
+theorem send_refuses (s : State) (a : SendArgs) (h : a.size > 0xFFFFFFFF ∨ a.size < 0) :
+    s.send a = (s, some .ValueError) := by
+  rcases h with h | h
+  · exact send_too_big s a h
+  · exact send_negative s a h
+
+example : exState.send { id := 1, size := 4294967296, src := [] } = (exState, some .ValueError) :=
+  send_refuses _ _ (Or.inl (by decide))
+
+/-- Otherwise (and unless a functional request is too long for a Single Frame) the request is appended to the queue
+    with the declared size, nothing pulled yet. -/
+theorem send_queues (s : State) (a : SendArgs) (h0 : 0 ≤ a.size) (h1 : a.size ≤ 0xFFFFFFFF)
+    (hf : ¬ (a.tat.getD s.cfg.defaultTat = .functional ∧
+            a.size.toNat + (if s.cfg.txDl = 8 then 1 else 2) + s.txPrefixLen > s.cfg.txDl)) :
+    (s.send a).1 = { s with txQueue := s.txQueue ++ [reqOf s a] } ∧
+    (s.send a).2 = (if s.cfg.blocking then some .BlockingSendTimeout else none) :=
+  send_accepts s a h0 h1 hf
+
+/-- The queued request is `Fresh` for the first `size` values of a bytes payload / long-enough generator. -/
+theorem send_fresh (s : State) (a : SendArgs) (p : Bytes) (hs : a.size = p.length) (hp : a.src.take p.length = p) :
+    Fresh (reqOf s a) p :=
+  reqOf_fresh s a p hs hp
+
+example : ((State.init exCfg exAddr).send { id := 7, size := 20, src := exPayload }).1.txQueue = [exReq] := by decide
 
 end Isotp.C02
+
+#print axioms Isotp.C02.padLen_agrees
+#print axioms Isotp.C02.padByte_agrees
+#print axioms Isotp.C02.padFrame_legal
+#print axioms Isotp.C02.canDlc_table
+#print axioms Isotp.C02.makeTxMsg_frame
+#print axioms Isotp.C02.txPrefix_le_one
+#print axioms Isotp.C02.txCfg_valid
+#print axioms Isotp.C02.msgFor_fields
+#print axioms Isotp.C02.segment_shape_frames
+#print axioms Isotp.C02.segment_shape_single
+#print axioms Isotp.C02.segment_shape_sfShort
+#print axioms Isotp.C02.segment_shape_sfEscape
+#print axioms Isotp.C02.segment_shape_ff
+#print axioms Isotp.C02.segment_shape_cf
+#print axioms Isotp.C02.segment_shape_payload
+#print axioms Isotp.C02.startTx_segment
+#print axioms Isotp.C02.transmitCf_segment
+#print axioms Isotp.C02.processTx_segment
+#print axioms Isotp.C02.processTx_fc_pass
+#print axioms Isotp.C02.ops_preserve
+#print axioms Isotp.C02.frames_are_segmentation
+#print axioms Isotp.C02.send_refuses
+#print axioms Isotp.C02.send_queues
+#print axioms Isotp.C02.send_fresh
